@@ -84,8 +84,39 @@ func (u *Unit) call(f *Frame, st *State, cc *ssa.CallCommon, res ssa.Value, pos 
 		if f.depth == 0 && f.prefix == "" {
 			pre = shortName(callee) + ":"
 		}
+		preSt := st.clone()
 		vals, out := u.runFuncB(callee, args, binds, st, f, pre)
 		*st = *out
+		// an inlined function that is itself verified against a contract also contributes
+		// its (separately proved) postconditions as facts about the inlined result
+		if icon := u.ctx.contractFor(callee); icon != nil && icon.Inline && len(icon.Ensures) > 0 {
+			u.em.usedSpecs[u.ctx.funcKey(callee)] = true
+			vars := map[string]Val{}
+			names := icon.paramNames(callee)
+			for i, a := range args {
+				if i < len(names) && names[i] != "" && names[i] != "_" {
+					vars[names[i]] = a
+				}
+			}
+			post := map[string]Val{}
+			for k, v := range vars {
+				post[k] = v
+			}
+			rn := icon.resultNames(callee)
+			for i, r := range vals {
+				if i < len(rn) && rn[i] != "" && rn[i] != "_" {
+					post[rn[i]] = r
+				}
+				post[fmt.Sprintf("ret%d", i)] = r
+			}
+			if len(vals) == 1 {
+				post["result"] = vals[0]
+			}
+			penv := &SpecEnv{u: u, st: st, old: preSt, vars: post, oldVars: vars, pkg: icon.Pkg, fr: f}
+			for _, e := range icon.Ensures {
+				u.assume(st, penv.boolExpr(e.Expr))
+			}
+		}
 		return vals
 	}
 	u.extDefault(key)
